@@ -6,11 +6,15 @@ src,pkg,runre,log=sys.argv[1:5]
 name=os.path.basename(src.rstrip('/'))
 dst='/verif/seeded/'+name
 os.makedirs(dst,exist_ok=True)
+_prev_meta=None
+if os.path.exists(os.path.join(dst,'meta.json')):
+    _prev_meta=json.load(open(os.path.join(dst,'meta.json')))
 for f in os.listdir(src):
     p=os.path.join(src,f)
     if os.path.isfile(p) and (f.endswith('.go') or f in('patch.diff','meta.json','README.md')):
         shutil.copy(p,os.path.join(dst,f))
-meta=json.load(open(os.path.join(dst,'meta.json')))
+prev=(_prev_meta or {}).get('verification_by_coordinator')
+meta=json.load(open(os.path.join(src,'meta.json')))
 txt=open(log).read()
 res=dict(re.findall(r'^RESULT \S+ (\w+): (.*)$',txt,re.M))
 keys=re.findall(r'^  key=(.*)$',txt,re.M)
@@ -22,5 +26,8 @@ meta['verification_by_coordinator']={
   'patch_applies':res.get('apply'),'builds':res.get('build'),'touched_package_tests':res.get('pkgtests'),'demo':res.get('demo'),
   'check_result':res.get('check'),'violation_keys_reported':keys,
 }
+v=meta['verification_by_coordinator']
+v['first_check_result']=(prev or {}).get('first_check_result',(prev or {}).get('check_result',v['check_result']))
+if len(sys.argv)>5: v['caught_by']=sys.argv[5]
 json.dump(meta,open(os.path.join(dst,'meta.json'),'w'),indent=1)
 print(name,res.get('check'))
